@@ -116,7 +116,7 @@ Layout(l) ==
 LayA(l) == IF l = 4 THEN 2 ELSE 0
 LayB(l) == CASE l = 1 -> 8 [] l = 2 -> 6 [] l = 3 -> 8 [] l = 4 -> 12
 (* jump kinds: none; narrow inside; wide inside with a negative value; wholly below the     *)
-(* data; wholly above; straddling the upper end                                             *)
+(* data; wholly above; straddling the upper end; 7-11: zero / negative / edge parameters    *)
 Jump(jk, l) ==
   LET a == LayA(l)  b == LayB(l)  mid == (a + b) \div 2 IN
   CASE jk = 1 -> NoJump
@@ -125,6 +125,13 @@ Jump(jk, l) ==
     [] jk = 4 -> [on |-> TRUE, lo |-> I(a - 1), hi |-> I(a), val |-> One]
     [] jk = 5 -> [on |-> TRUE, lo |-> I(b), hi |-> I(b + 1), val |-> Q(1, 2)]
     [] jk = 6 -> [on |-> TRUE, lo |-> I(b - 1), hi |-> I(b + 1), val |-> Q(1, 2)]
+    \* parameters that are zero / negative / on the edge of the data:
+    [] jk = 7 -> [on |-> TRUE, lo |-> Zero, hi |-> I(2), val |-> Q(1, 2)]             \* the ramp starts exactly at 0
+    [] jk = 8 -> [on |-> TRUE, lo |-> I(-2), hi |-> Zero, val |-> Q(1, 2)]            \* ... ends exactly at 0
+    [] jk = 9 -> [on |-> TRUE, lo |-> I(mid - 1), hi |-> I(mid + 1), val |-> Zero]    \* a jump of size 0
+    [] jk = 10 -> [on |-> TRUE, lo |-> I(-1), hi |-> I(3), val |-> Q(-1, 4)]          \* starts below 0, ends inside
+    [] jk = 11 -> [on |-> TRUE, lo |-> I(a), hi |-> I(a + 2), val |-> One]            \* starts at the first position (= default xmin)
+NJump == 11
 TsCoef(ci, k, nc) == Ints(Prefix(CoefPool[((ci + k - 2) % 4) + 1], nc))
 (* weights: all one; one zero-weight point in the first trace; both ends of the last trace;  *)
 (* 4: weights 1, 2, 3 cyclically with one zero-weight point in the first trace               *)
@@ -164,9 +171,10 @@ TsExpected(t) ==
 TsSeed(b, nc, l) == [kind |-> "seed", fam |-> "tset", basis |-> b, nc |-> nc, lay |-> l]
 TsStep ==
   /\ c.kind = "seed" /\ c.fam = "tset"
-  /\ \E ci \in 1..2 : \E jk \in 1..6 : \E mm \in 1..3 : \E wv \in 1..4 : \E nz \in 0..1 :
+  /\ \E ci \in 1..2 : \E jk \in 1..NJump : \E mm \in 1..3 : \E wv \in 1..4 : \E nz \in 0..1 :
        /\ (nz = 1) => (jk = 1 /\ mm = 1 /\ c.lay \in {1, 2} /\ c.nc <= 3)
-       /\ ((3 * ci + 5 * jk + 7 * mm + 11 * wv + 13 * c.nc) % TsMod = 0) \/ nz = 1
+       \* (the sample always contains each of the jump kinds 7-11 once per seed: first coefficients, default limits, unit weights)
+       /\ ((3 * ci + 5 * jk + 7 * mm + 11 * wv + 13 * c.nc) % TsMod = 0) \/ nz = 1 \/ (jk >= 7 /\ ci = 1 /\ mm = 1 /\ wv = 1)
        /\ LET t == TsCase(c.basis, c.nc, c.lay, ci, jk, mm, wv, nz) IN
           /\ \A k \in 1..Len(t.xpos) : WellPosed(TsProblem(t, k))
           /\ c' = t
